@@ -619,4 +619,20 @@ theorem run_dropSelfact (es : List Ev) : ∀ st : St,
       simp only [run, dropSelfact]
       exact ⟨by rw [(ih _).1], (ih _).2⟩
 
+/-! ## several devices in one process -/
+
+theorem runTagged_proj (evs : List (Nat × Ev)) : ∀ (sts : Nat → St) (d : Nat),
+    runTagged sts evs d = run (sts d) ((evs.filter (fun x => x.1 == d)).map (·.2)) := by
+  induction evs with
+  | nil => intro sts d; simp [runTagged, run]
+  | cons x xs ih =>
+    intro sts d
+    obtain ⟨i, e⟩ := x
+    simp only [runTagged]
+    rw [ih]
+    by_cases h : i = d
+    · subst h; simp [run]
+    · have h' : ¬ d = i := fun hh => h hh.symm
+      simp [h, h']
+
 end PyatvModel.C10
